@@ -183,7 +183,7 @@ def pct_mix(dense, depth, width):
         by, parts, qs, mode, fmt, seps = t
         n = len(parts)
         qs = qs[:n - 1]
-        mode = {7: 0, 13: 1}.get(mode, 2)
+        mode = {7: 0, 3: 0, 13: 1}.get(mode, 2)
         if mode == 1:
             # integer percentages adding up to exactly 100: the last part gets nothing
             ints = [max(1, int(Fraction(q)) % 40) for q in qs]
@@ -990,20 +990,29 @@ def task_unit_sweep(ctx):
                     ]
                     for m in shapes:
                         ctx.check(check_string, {"mix": m, "table": "private" if k % 3 == 0 else "public"})
+    # percentages: above 100 (must be refused), exactly 100 (last part vanishes), ordinary
+    for by in ("w", "v"):
+        for qs in (["60", "50"], ["100.5"], ["99.5", ".6"], ["70", "30"], ["100"], ["10", "15"], ["0.0", "40"]):
+            fmt = [[False, False], [True, by == "w"]][:len(qs)]
+            ps = [A, B, C][:len(qs)] + [Dn]
+            for which in ("public", "private"):
+                ctx.check(check_string, {"mix": ["p", by, qs, ps, fmt, [" // "] * len(qs)], "table": which})
 
 
 def tasks(tier):
     if tier == "quick":
-        return [("strings-a", task_strings, dict(n=400, depth=1, width=6)),
-                ("strings-b", task_strings, dict(n=400, depth=2, width=4)),
-                ("strings-c", task_strings, dict(n=400, depth=1, width=4)),
-                ("strings-d", task_strings, dict(n=400, depth=0, width=6)),
+        return [("strings-a", task_strings, dict(n=450, depth=1, width=6)),
+                ("strings-b", task_strings, dict(n=450, depth=2, width=4)),
+                ("strings-c", task_strings, dict(n=450, depth=1, width=4)),
+                ("strings-d", task_strings, dict(n=450, depth=0, width=6)),
+                ("strings-e", task_strings, dict(n=450, depth=1, width=5)),
                 ("unit-sweep", task_unit_sweep, dict()),
-                ("api-a", task_api, dict(n=400, depth=1)),
-                ("api-b", task_api, dict(n=400, depth=2)),
-                ("api-c", task_api, dict(n=400, depth=0)),
-                ("api-d", task_api, dict(n=400, depth=1)),
-                ("series", task_series, dict(n=400, depth=1))]
+                ("api-a", task_api, dict(n=450, depth=1)),
+                ("api-b", task_api, dict(n=450, depth=2)),
+                ("api-c", task_api, dict(n=450, depth=0)),
+                ("api-d", task_api, dict(n=450, depth=1)),
+                ("api-e", task_api, dict(n=450, depth=0)),
+                ("series", task_series, dict(n=450, depth=1))]
     out = []
     for k in range(8):
         out.append(("strings-%d" % k, task_strings, dict(n=6000, depth=1 + k % 3, width=6 if k % 3 == 0 else 4)))
